@@ -208,6 +208,44 @@ def refreshMarks (r : Refresh) (old new : List Mark) : List Mark :=
   if r.set.any (litHolds { pub := true, root := false, handed := true, present := !deleted }) then new
   else if deleted then [] else old
 
+/-- The same for ANY public entry that is no root hook (a value a pre-processor ADDED, CHANGED, or did not take over):
+`old` = what the existing out profile holds under that name (`none`: no such entry), `new` = what the source profile
+holds.  The delete loop runs over the entries of the out profile, then the set loop over the handed-over entries (the
+public entries of the source profile), each evaluating the literals AS READ. -/
+def refreshEntry {α : Type} (r : Refresh) (old new : Option α) : Option α :=
+  let facts : Bool → EntryFacts := fun present => { pub := true, root := false, handed := new.isSome, present := present }
+  let afterDelete : Option α := if old.isSome && r.delete.all (litHolds (facts true)) then none else old
+  match new with
+  | some v => if r.set.any (litHolds (facts afterDelete.isSome)) then some v else afterDelete
+  | none => afterDelete
+
+/-- does the statement (re)bind the profile variable `x`? -/
+def rebinds (x : Ref) : SInstr → Bool
+  | .bind dst _ => dst == x
+  | .publicCopy dst _ => dst == x
+  | .loop l => l.body.any (fun i => match i with | .solve (some d) _ => d == x | _ => false)
+  | _ => false
+
+/-- `self.in_profile` counts as the variable `t` it was built from (`self.in_profile = self.InProfile(self, t)`: a new
+object holding the public entries of `t`) as long as `t` is not rebound -/
+def resolveRef (alias : Option Ref) (r : Ref) : Ref :=
+  match r, alias with
+  | .selfIn, some t => t
+  | r, _ => r
+
+/-- the profile variables from which `init_solve` builds `self.in_profile`, a new `self.out_profile`, and from which
+its re-use branch hands over to an existing out profile (in statement order); `alias`: what `self.in_profile` was
+built from so far -/
+def handoverRefsFrom : Option Ref → List SInstr → List Ref
+  | _, [] => []
+  | _, .newIn t :: is => t :: handoverRefsFrom (some t) is
+  | a, .newOut t _ :: is => resolveRef a t :: handoverRefsFrom a is
+  | a, .newOrRefreshOut t r :: is => resolveRef a t :: resolveRef a r.src :: handoverRefsFrom a is
+  | a, i :: is =>
+    handoverRefsFrom (match a with | some t => if rebinds t i then none else some t | none => none) is
+
+def handoverRefs (p : List SInstr) : List Ref := handoverRefsFrom none p
+
 /-- what the methods called from `init_solve` / `solve` do -/
 structure Callees where
   /-- `self._yield_pre_processors()` (`true`) / `self._yield_post_processors()` of an instance of a class -/
